@@ -7,7 +7,9 @@
 (* Shape.  A peer message is an abstract record m (field VALUES drawn from a class lattice:      *)
 (* valid-typical, valid-boundary, illegal enum, too long) together with `have`, the number of     *)
 (* bytes the peer delivers before it stops (classes "truncated here" and "absent": the stream    *)
-(* ends / the datagram is cut inside or in front of a field).  Wire(ep, m) is what the peer      *)
+(* ends / the datagram is cut inside or in front of a field; for the AEAD-protected protocols    *)
+(* also m.icut: a peer that holds the key seals only a prefix of the header, so that the lengths *)
+(* inside the authenticated part lie).  Wire(ep, m) is what the peer                             *)
 (* sends (the encoder side of the grammar, a sequence of fields with byte counts), Prog(ep, m)   *)
 (* is what the code does with it: one op per code site,                                          *)
 (*                                                                                               *)
@@ -36,7 +38,8 @@
 (*               particular for port 0 against each port-criterion representation                 *)
 (*   ClientEncodable every address a parser accepts can be re-encoded by every client             *)
 (*               (socks5.LengthOfAddrFromConnAddr panics above 255 bytes)                         *)
-(*   ReplyDefined every dial result code has a reply                                              *)
+(*   DnsComplete a DNS reply is used only when everything parseMsg reads of it was there          *)
+(*   SuccessOnlyOnProceed, RejectedStays, PhasesForward (action properties)                       *)
 (*                                                                                               *)
 (* The model checker enumerates the lattice; MCLattice prints one CASE line per message with the  *)
 (* wire fields, `have` and the model's verdict; harness/drivers/c06 turns each into bytes          *)
@@ -45,7 +48,9 @@
 (* the real Router, the real client encoders and the real PendingConn.  The property is           *)
 (* evaluated on what the real code does: no panic, no fatal error, no goroutine left stuck, no    *)
 (* request out of a truncated message.  Differences between the model's verdict and the code's    *)
-(* that the property does not forbid are reported as model drift.                                 *)
+(* that the property does not forbid are reported as model drift.  The server-side cases are sent  *)
+(* once more over loopback sockets to a real service.Manager (service/tcp.go, udp_nat*.go,         *)
+(* udp_session*.go), which must keep serving well-formed requests.                                 *)
 EXTENDS Integers, Sequences, FiniteSets, TLC
 
 CONSTANTS
@@ -70,6 +75,11 @@ CONSTANTS
     Variant         \* "code", or a design mutant used to show that the invariants are not vacuous
 
 ASSUME TagSize > 0 /\ IPv4AddrLen = 1 + 4 + 2 /\ IPv6AddrLen = 1 + 16 + 2 /\ MaxAddrLen = 1 + 1 + 255 + 2
+ASSUME MaxRangeSet >= 1 /\ MaxLinearDomains >= 1 /\ MaxLinearSuffixes >= 1 /\ MaxPadding >= 0
+\* representation of a port criterion with n separate ranges (router/route.go RouteConfig.Route); the driver builds
+\* "r16" with MaxRangeSet ranges and "r17" with MaxRangeSet + 1
+PortRep(n) == IF n = 1 THEN "one" ELSE IF n <= MaxRangeSet THEN "r16" ELSE "r17"
+\* the parsers do not bound the padding length by MaxPadding (only the packers do): paddings above it are accepted
 
 VARIABLES
     ep,         \* entry point
